@@ -135,7 +135,7 @@ def digest(args):
 
 
 # ---------------------------------------------------------------- initializers
-def init(token, counter_file=None, fail_on=None, leak0=False):
+def init(token, counter_file=None, fail_on=None, leak0=False, fail_exc="RuntimeError"):
     global INIT_TOKEN, INIT_COUNT
     n = None
     if counter_file:
@@ -145,6 +145,10 @@ def init(token, counter_file=None, fail_on=None, leak0=False):
         os.close(fd)
     _log("init_run", token=token, n=n)
     if fail_on is not None and n is not None and n in fail_on:
+        if fail_exc == "UserWarning":
+            raise UserWarning("initializer aborted by a warning turned into an error on spawn %d" % n)
+        if fail_exc == "SystemExit":
+            raise SystemExit(3)
         raise RuntimeError("initializer fails on spawn %d" % n)
     if leak0:
         import loky.process_executor as pe
